@@ -3,6 +3,7 @@ package main
 import (
 	"fmt"
 	"runtime"
+	"strings"
 	"sync"
 	"sync/atomic"
 	"time"
@@ -617,7 +618,18 @@ func runC15(c *Ctx) error {
 						conn.WritevAsync(gws.OpcodeBinary, [][]byte{p}, cb(i))
 					}
 				}
-				submit(1)
+				tag0 := fmt.Sprintf("async callbacks role=%s api=%s ending=%s", roleName(server), api, ending)
+				if !runWithTimeout(2*time.Second, func() { submit(1) }) {
+					// the asynchronous API must hand the write to the queue and return; here the caller itself sits in the transport
+					c.oracleFail(fmt.Sprintf("%s did not return while the transport was stalled: the write ran on the caller's goroutine, not as a task of the queue [%s]", api, tag0),
+						"async-write-outside-queue", map[string]any{"tag": tag0})
+					for i := 0; i < 8; i++ {
+						gate <- struct{}{}
+					}
+					_ = tap.Close()
+					c.count(tag0, true, "kind=async-callbacks")
+					continue
+				}
 				select { // task 1 is inside the transport
 				case <-entered:
 				case <-time.After(5 * time.Second):
@@ -661,6 +673,70 @@ func runC15(c *Ctx) error {
 				_ = tap.Close()
 				c.count(tag, true, "kind=async-callbacks")
 			}
+		}
+	}
+	// ---- (e) one goroutine mixes the asynchronous entry points while a plain task occupies the worker (the write lock is
+	// free): everything goes onto the wire, and every callback runs, in queueing order
+	for _, server := range []bool{true, false} {
+		for _, pmd := range []bool{false, true} {
+			spec := connSpec{Server: server, PMD: pmd}
+			conn, tap, err := spec.open(&recHandler{})
+			if err != nil {
+				return err
+			}
+			release := make(chan struct{})
+			started := make(chan struct{})
+			var mu sync.Mutex
+			var order []string
+			rec := func(name string) {
+				mu.Lock()
+				order = append(order, name)
+				mu.Unlock()
+			}
+			conn.Async(func() { close(started); <-release; rec("blocker") })
+			<-started
+			conn.WritevAsync(gws.OpcodeBinary, [][]byte{[]byte("A-"), []byte("writev")}, func(error) { rec("A") })
+			conn.WriteAsync(gws.OpcodeBinary, []byte("B-write"), func(error) { rec("B") })
+			b := gws.NewBroadcaster(gws.OpcodeBinary, []byte("C-broadcast"))
+			_ = b.Broadcast(conn)
+			conn.WriteAsync(gws.OpcodeBinary, []byte("D-write"), func(error) { rec("D") })
+			conn.Async(func() { rec("end") })
+			time.Sleep(2 * time.Millisecond)
+			wroteEarly := tap.numWrites()
+			close(release)
+			deadline := time.Now().Add(5 * time.Second)
+			for time.Now().Before(deadline) {
+				mu.Lock()
+				n := len(order)
+				mu.Unlock()
+				if n >= 5 {
+					break
+				}
+				time.Sleep(time.Millisecond)
+			}
+			_ = b.Close()
+			mu.Lock()
+			got := strings.Join(order, " ")
+			mu.Unlock()
+			var wire []string
+			rx := &rfcReceiver{server: server}
+			if msgs, problem := rx.receive(tap.written()); problem == "" {
+				for _, m := range msgs {
+					wire = append(wire, string(head(m.Payload, 1)))
+				}
+			}
+			tag := fmt.Sprintf("mixed async entry points role=%s pmd=%v", roleName(server), pmd)
+			replay := map[string]any{"tag": tag, "callback_order": got, "wire_order": strings.Join(wire, " "), "writes_before_the_worker_was_free": wroteEarly}
+			switch {
+			case wroteEarly != 0:
+				c.oracleFail(fmt.Sprintf("%d frame(s) reached the transport while an earlier task of the queue was still running (queued writes must wait their turn) [%s]", wroteEarly, tag), "async-write-outside-queue", replay)
+			case got != "blocker A B D end":
+				c.oracleFail(fmt.Sprintf("callbacks ran in order [%s], queued as [blocker A B D end] [%s]", got, tag), "async-callback-order", replay)
+			case strings.Join(wire, " ") != "A B C D":
+				c.oracleFail(fmt.Sprintf("messages reached the wire in order [%s], queued as [A B C D] [%s]", strings.Join(wire, " "), tag), "async-wire-order", replay)
+			}
+			_ = tap.Close()
+			c.count(tag, true, "kind=async-mixed")
 		}
 	}
 	s, err := c15NewSys()
